@@ -167,14 +167,6 @@ def execute_repair(case, seed):
     run1 = execute(c1)
     if run1.outcome != 'abort' or run1.exc is None or run1.exc[0] != 'InvalidInput' or not run1.rec.solvers:
         return None, c1
-    # the line whose evaluation raised is in no queue any more; calling solve() again brings it back only if it belongs to a
-    # form that is requested again (forms loaded on demand are not re-added) - other histories have no defined outcome
-    attempts = [e[1] for e in run1.rec.events if e[0] == 'A']
-    if not attempts or attempts[-1].split('.')[0] not in run1.requested:
-        return None, c1
-    fs_ = next((f for f in case['world']['forms'] if f['name'] == attempts[-1].split('.')[0].split(':')[0]), None)
-    if fs_ is None or attempts[-1].split('.')[1] not in [l['name'] for l in synth.lines_of(fs_)[0]]:
-        return None, c1         # (only required lines are queued again when a form is re-added)
     case2 = copy.deepcopy(c1)
     for q, p_ in sorted(case2['persona'].items()):
         if p_['invalid'] and q in c1['file']:
